@@ -37,6 +37,8 @@ def gen_case(rng, max_events=40):
     gaps = rng.choice([[1, 2, 3, 5], [8, 16, 24], [4, 8, 12, 40], [7, 9], [8]])
     t = rng.randrange(0, 4) * scale
     pubs, events, last = [], [], None
+    # 15%: non-dyadic float payloads (0.1 + 1.0 * (0.3 - 0.1) != 0.3: "exactly the published value at publication times")
+    floats = rng.random() < 0.15
     nev = rng.randrange(4, max_events)
     if rng.random() < 0.05:
         events.append(["pull", t])  # nothing published yet
@@ -44,7 +46,7 @@ def gen_case(rng, max_events=40):
         if not pubs or rng.random() < 0.4:
             t = t + rng.choice(gaps) * scale if pubs else t
             pubs.append(t)
-            events.append(["push", t, [rng.randrange(-9, 10) for _ in range(nc)]])
+            events.append(["push", t, [rng.choice([0.1, 0.2, 0.3, 0.7, 1.1, 2.5, -0.3]) if floats else rng.randrange(-9, 10) for _ in range(nc)]])
             continue
         lo = last if last is not None else pubs[0]
         mode = rng.random()
@@ -117,7 +119,10 @@ def run_impl(case, no_evict=False):
 
 
 def model_request(case):
-    evs = [[e[0], e[1], [[v, 1] for v in e[2]]] if e[0] == "push" else e for e in case["events"]]
+    def rat(v):
+        q = F(v)  # exact also for a float payload
+        return [q.numerator, q.denominator]
+    evs = [[e[0], e[1], [rat(v) for v in e[2]]] if e[0] == "push" else e for e in case["events"]]
     return {"op": "c11", "kind": case["kind"], "pos": case["pos"], "events": evs}
 
 
